@@ -24,6 +24,7 @@ type Opts struct {
 	Zone       string // none | utc | named | unnamed
 	NonDefault bool   // non-default private values
 	LongPaths  bool
+	Huge       bool // an encrypted portion well beyond 64 KiB (three-byte PFB segment lengths)
 }
 
 var stdNames = []string{"space", "exclam", "A", "B", "C", "a", "b", "c", "zero", "one", "period", "comma", "hyphen", "grave", "acute"}
@@ -115,8 +116,15 @@ func Generate(rng *rand.Rand, o Opts) *type1.Font {
 	}
 	for gi, name := range names {
 		g := &type1.Glyph{WidthX: float64(rng.Intn(1200))}
-		if rng.Intn(12) == 0 {
+		switch rng.Intn(12) {
+		case 0:
 			g.WidthY = float64(rng.Intn(50) + 1)
+		case 1:
+			g.WidthX = -float64(rng.Intn(1200) + 1) // right-to-left advance
+		case 2:
+			g.WidthX, g.WidthY = 0, -float64(rng.Intn(1000)+1) // vertical writing
+		case 3:
+			g.WidthX = []float64{-1, -107, -108, -1131, -1132, 1131, 1132, 107, 108}[rng.Intn(9)]
 		}
 		nc := rng.Intn(3)
 		if gi == 0 {
@@ -125,12 +133,18 @@ func Generate(rng *rand.Rand, o Opts) *type1.Font {
 		if o.LongPaths && gi == 1 {
 			nc = 40
 		}
+		if o.Huge && gi > 0 {
+			nc = 12
+		}
 		for c := 0; c < nc; c++ {
 			cx, cy := coord(rng, o.Fractional), coord(rng, o.Fractional)
 			g.MoveTo(cx, cy)
 			ns := 1 + rng.Intn(4)
 			if o.LongPaths && gi == 1 {
 				ns = 30
+			}
+			if o.Huge && gi > 0 {
+				ns = 60
 			}
 			for s := 0; s < ns; s++ {
 				// Segment shapes: the writer chooses between hlineto / vlineto / rlineto and
@@ -182,7 +196,7 @@ func Generate(rng *rand.Rand, o Opts) *type1.Font {
 	}
 	switch o.Encoding {
 	case "none":
-	case "std-subset", "holes":
+	case "std-subset", "holes", "std-plus":
 		enc := make([]string, 256)
 		for i := range enc {
 			enc[i] = ".notdef"
@@ -190,6 +204,15 @@ func Generate(rng *rand.Rand, o Opts) *type1.Font {
 		for _, n := range names {
 			if c, ok := stdCode[n]; ok {
 				enc[c] = n
+			}
+		}
+		if o.Encoding == "std-plus" {
+			// as StandardEncoding at every code it assigns, plus glyphs at codes it leaves unassigned
+			extra := []int{1, 31, 127, 160, 176, 255}
+			for i, c := range extra {
+				if i+1 < len(names) {
+					enc[c] = names[1+i%(len(names)-1)]
+				}
 			}
 		}
 		if o.Encoding == "holes" {
